@@ -118,3 +118,24 @@ Definition rows_eqb (a b : list (string * nat * ekind)) : bool :=
 Definition table_mismatches (cs : list (N * levels * list (string * nat * ekind))) : list N :=
   flat_map (fun c => match c with (i, lv, rows) =>
      if rows_eqb (effective_error_table lv) rows then [] else [i] end) cs.
+
+(* goa's finalised row (headers with required flags, body) against finalize_hdrs / finalize_body
+   computed from the type and the mapping the design description states *)
+Definition hmap_eqb (a b : hmap) : bool :=
+  String.eqb (hattr a) (hattr b) && String.eqb (hname a) (hname b) && Bool.eqb (hreq a) (hreq b).
+
+Definition set_eqb {A} (eqb : A -> A -> bool) (a b : list A) : bool :=
+  Nat.eqb (List.length a) (List.length b) && forallb (fun x => existsb (eqb x) b) a.
+
+Definition body_eqb (a b : bodyspec) : bool :=
+  match a, b with
+  | BEmpty, BEmpty => true
+  | BValue, BValue => true
+  | BAttr x, BAttr y => String.eqb x y
+  | BObject x, BObject y => set_eqb String.eqb x y
+  | _, _ => false
+  end.
+
+Definition finalize_mismatches (cs : list (N * etype * rawmap * list hmap * bodyspec)) : list N :=
+  flat_map (fun c => match c with (i, ty, raw, hs, b) =>
+     if set_eqb hmap_eqb (finalize_hdrs ty raw) hs && body_eqb (finalize_body ty raw) b then [] else [i] end) cs.
